@@ -164,6 +164,9 @@ void h_c14(void)
     _Bool typed = 1;                    /* RC_TYPED: operand shapes the compiler emits (index operands are not heap values) */
     if (K == OP_ARR_GET || K == OP_ARR_REMOVE) typed = !(in_stack_size >= 1 && IS_RC(in_v0));
     if (K == OP_ARR_SET) typed = !(in_stack_size >= 2 && IS_RC(in_v1));
+    /* index / scalar operands that the handler pops and does not release (they are ints where the compiler emits the opcode) */
+    if (K == OP_STR_CHAR_AT || K == OP_OPAQUE_VALID || K == OP_STR_FROM_INT || K == OP_STR_FROM_FLOAT) typed = !(in_stack_size >= 1 && IS_RC(in_v0));
+    if (K == OP_STR_SUBSTR || K == OP_ARR_SLICE) typed = !(in_stack_size >= 1 && IS_RC(in_v0)) && !(in_stack_size >= 2 && IS_RC(in_v1));
 
     VmTrap t = vm_core_execute(vm);
 
